@@ -274,10 +274,16 @@ def split_model(ex, recv, name, args, kwargs, st):
             else:
                 st.fact(z3.Implies(n == 2, z3.Not(z3.Contains(arr[0], sz))))
     else:
+        # without maxsplit the pieces are a FUNCTION of (text, separator): the same symbols in code and in contracts
         cnt = uf(ex, "COUNT", S, S, I)(s, sz)
-        st.fact(z3.And(cnt >= 0, n == cnt + 1))
+        arr = uf(ex, "SPLIT_" + name.upper(), S, S, ArrIS)(s, sz)
+        n = cnt + 1
+        lst = VList(arr, n, "bytes")
+        st.fact(cnt >= 0)
         st.fact((cnt == 0) == z3.Not(z3.Contains(s, sz)))
         st.fact(z3.Implies(n == 1, arr[0] == s))
+        # the first piece is the text before the first separator
+        st.fact(z3.And(z3.PrefixOf(arr[0], s), z3.Implies(z3.Length(sz) > 0, (z3.Length(arr[0]) == 0) == z3.Or(z3.PrefixOf(sz, s), z3.Length(s) == 0))))
     lst.split_info = ("sep", s, sz, maxsplit)
     return lst
 
@@ -293,8 +299,9 @@ def str_method(ex, recv, name, args, kwargs, st):
         if z3.is_string_value(sep) and sep.as_string() == "" and lst.bytebuf is not None:
             return type(recv)(lst.bytebuf)
         f = uf(ex, "JOIN", S, lst.arr.sort(), I, S)
-        ex.assumed.add("bytes.join over an untracked list: uninterpreted JOIN(sep, items, n)")
+        ex.assumed.add("bytes.join over an untracked list: uninterpreted JOIN(sep, items, n); empty for no items, the item for one item, starts with items[0] + sep for two or more")
         r = f(recv.z, lst.arr, lst.n)
+        st.fact(z3.And(z3.Implies(lst.n <= 0, r == z3.StringVal("")), z3.Implies(lst.n == 1, r == lst.arr[0]), z3.Implies(lst.n >= 2, z3.PrefixOf(z3.Concat(lst.arr[0], recv.z), r))))
         nn = z3.simplify(lst.n)
         if z3.is_int_value(nn) and nn.as_long() <= 3:
             parts = []
@@ -727,9 +734,25 @@ def comprehension(ex, node, st, kind):
         # elementwise obligations for consumers (bytes(...) needs 0 <= x < 256): remember the arbitrary element and its state
         out.arbitrary = (i, e, sc)
         if not has_filter:
-            k = fresh("k", I)
-            # definitional fact for the arbitrary element, generalised over the fresh symbols of the body
             out.elem_state = sc
+            # when the element is a TERM over the index and symbols that already exist (no fresh symbol was made while evaluating the
+            # body), the list is defined by it: out[k] == e[i := k]
+            from .solve import _consts
+
+            memo = {}
+            known = set()
+            for c_ in st.path:
+                known |= _consts(c_, memo)
+            for v_ in st.store.values():
+                for a_ in vars(v_).values() if hasattr(v_, "__dict__") else ():
+                    if isinstance(a_, z3.ExprRef):
+                        known |= _consts(a_, memo)
+            if _consts(e.z, memo) - {i.decl().name()} <= known:
+                out.arr = z3.Lambda([i], e.z)
+                # the ground facts of the encoding met while evaluating the body hold of every element
+                ef = [c_ for c_ in sc.path[len(st.path):] if c_.get_id() in sc.facts_seen and _consts(c_, memo) - {i.decl().name()} <= known]
+                if ef:
+                    st.assume(z3.ForAll([i], z3.Implies(z3.And(0 <= i, i < n), z3.And(*ef))))
         return out
     raise Unsupported(f"comprehension element of kind {e.kind}")
 
